@@ -337,6 +337,7 @@ var specC21 = vstat.Spec[bCase]{
 	Assumptions: []string{"time-based settle after every operation; safety clauses can only be missed, not invented, by late events"},
 	Gen:         genC21,
 	Check:       checkC21,
+	Inflight:    true,
 }
 
 func TestC21(t *testing.T)       { vstat.Check(t, specC21) }
@@ -411,6 +412,7 @@ var specC23 = vstat.Spec[bCase]{
 	Assumptions: []string{"fairness of the Go scheduler during the stable suffix; 10 s bound for completion"},
 	Gen:         genC23,
 	Check:       checkC23,
+	Inflight:    true,
 }
 
 func TestC23(t *testing.T)       { vstat.Check(t, specC23) }
@@ -541,8 +543,9 @@ var specC23s = vstat.Spec[c23sCase]{
 	Property: "C23",
 	Rule: "the real Client on a scripted relay: Opened(1), the application sends; while the message is in flight 0-3 re-opens (Opened(n+1) without Closed, Closed+Opened, stream failure + reconnect); after each the client must transmit the message again in the new epoch; then the relay acknowledges the latest transmission; 1-2 messages in sequence; " +
 		"oracle: Send returns success (15 s bound with confirmation wait); non-trivial = at least one re-open while the send is in flight",
-	Gen:   genC23s,
-	Check: checkC23s,
+	Gen:      genC23s,
+	Check:    checkC23s,
+	Inflight: true,
 }
 
 func TestC23Script(t *testing.T)       { vstat.Check(t, specC23s) }
